@@ -1138,12 +1138,16 @@ class IntFlag(Adapter):
         for v in val:
             if isinstance(v, str):
                 v = self.flag_cls[v]
-            new_val |= v
+            # Use plain ints so negative leftover bits aren't mangled by the flag class
+            new_val |= int(v)
         return new_val
 
     def decode(self, val: Any, ctx: Optional[ParseContext], pod: bool = False) -> Any:
         if pod:
             return dtypes.flags_to_pod(self.flag_cls, val)
+        # Negative values (from signed fields) can't be wrapped without changing them
+        if val < 0:
+            return val
         return self.flag_cls(val)
 
     def default_value(self) -> Any:
